@@ -231,6 +231,32 @@ pub fn run(ctx: &mut Ctx) {
             }
         }
     }
+    // the data type mini language through every entry point that parses it: hostile type names and arguments - non-ASCII letters and
+    // digits (multi-byte: a byte offset that is not a character boundary), unbalanced brackets and quotes, huge numbers, empty text,
+    // very long input - must come back as an error (or a schema), never a panic
+    {
+        use serde_arrow::schema::{SchemaLike, SerdeArrowSchema};
+        let texts: Vec<String> = vec![
+            "Caf\u{e9}", "Gr\u{f6}\u{df}e", "\u{65e5}\u{4ed8}", "Duration(Sek\u{fc}nd\u{e9})", "FixedSizeBinary(\u{ff11}\u{ff16})", "D\u{e9}cimal128(5, 2)",
+            "Timestamp(Second, Some(Z\u{fc}rich))", "Timestamp(Second, Some(\"Europe/Z\u{fc}rich\"))", "\u{e9}", "I32\u{e9}", "\u{1f600}", "Utf8\u{1f600}", "List(\u{e9})",
+            "", " ", "(", ")", "((((", "Decimal128(", "Decimal128(5", "Decimal128(5,", "Decimal128(5, 2", "Decimal128(,)", "Timestamp(Second, Some(\"", "Timestamp(Second, Some(\"UTC",
+            "Timestamp(Second, Some(\"\\", "FixedSizeBinary(99999999999999999999999999)", "FixedSizeBinary(-99999999999999999999999999)", "Decimal128(256, 2)", "Decimal128(5, 128)",
+            "Time32(Nanosecond)", "Time64(Second)", "I32(1)", "Bool()", "Utf8,", "Utf8 Utf8", "Some(Utf8)", "None", "\0", "I32\0",
+        ].into_iter().map(|x: &str| x.to_string()).chain([format!("{}I32", "(".repeat(5000)), "A".repeat(100_000), format!("Decimal128({}, 2)", "9".repeat(400))]).collect();
+        for t in &texts {
+            let label: String = t.chars().take(40).collect();
+            let t1 = t.clone();
+            attempt(ctx, "data_type_text:from_value", format!("{:?}", label), move || SerdeArrowSchema::from_value(serde_json::json!([{"name": "a", "data_type": t1}])).map(|_| ()).map_err(|e| e.to_string()));
+            let t2 = t.clone();
+            attempt(ctx, "data_type_text:json", format!("{:?}", label), move || serde_json::from_str::<SerdeArrowSchema>(&serde_json::json!({"fields": [{"name": "a", "data_type": t2}]}).to_string()).map(|_| ()).map_err(|e| e.to_string()));
+            let t3 = t.clone();
+            attempt(ctx, "data_type_text:nested", format!("{:?}", label), move || SerdeArrowSchema::from_value(serde_json::json!([{"name": "a", "data_type": "List", "children": [{"name": "element", "data_type": t3}]}])).map(|_| ()).map_err(|e| e.to_string()));
+            let t4 = t.clone();
+            attempt(ctx, "data_type_text:overwrite", format!("{:?}", label), move || TracingOptions::default().overwrite("a", serde_json::json!({"name": "a", "data_type": t4})).map(|_| ()).map_err(|e| e.to_string()));
+            let t5 = t.clone();
+            attempt(ctx, "data_type_text:tensor_element", format!("{:?}", label), move || serde_arrow::schema::ext::FixedShapeTensorField::new("t", serde_json::json!({"name": "element", "data_type": t5}), vec![2, 3]).map(|_| ()).map_err(|e| e.to_string()));
+        }
+    }
 }
 
 struct Item2<T>(T);
